@@ -11,5 +11,5 @@ for id in $(python3 -c "import json;print(' '.join(c['property_id'] for c in jso
   ./check "$id" --build-only || { echo "setup: build for $id failed" >&2; exit 1; }
 done
 # warm the race-detector builds of the free-running passes (C17, C08)
-(cd "$HERE/harness" && go test -race -vet=off -count=1 -run NONE ./racepass/ ./racepass8/ ./racepass10/ ./racepass11/ >/dev/null 2>&1 || true)
+(cd "$HERE/harness" && go test -race -vet=off -count=1 -run NONE ./racepass/ ./racepass8/ ./racepass10/ ./racepass11/ ./racepass20/ >/dev/null 2>&1 || true)
 echo "setup ok"
